@@ -97,7 +97,7 @@ def ddmin(prop, seed, ops, knobs, klass, budget=300):
 
 
 SHRINK_SKIP_KEYS = {"id", "op", "h", "x", "out", "outs", "hs", "maps", "src", "tgt", "path", "game", "io", "knobs", "conv", "cls", "how",
-                    "fmt", "path_type", "layout", "key", "retry_of", "prop"}
+                    "fmt", "path_type", "layout", "key", "retry_of", "prop", "constraint"}
 
 
 def _candidates(v, path=()):
